@@ -931,6 +931,20 @@ def check_seqs(ctx):
             want = after % inner
             if "not self._after" in lits:
                 want = inner
+                if qual == "FillComputeSeq.compute":
+                    # compute() of a user's accumulator may return any iterable (a list); consumers of a sequence's results
+                    # (SplitIntoBins zips the cells with next()) rely on the iterator Sequence.run makes of it.  FillRequest.request
+                    # is lena's own generator, hence the difference
+                    if got in ("iter(%s)" % inner, "flow_to_iter(%s)" % inner, "functions.flow_to_iter(%s)" % inner, after % inner):
+                        want = got
+                    else:
+                        ctx.violation("C05-f", rets[0], "FillComputeSeq.compute hands out `%s` as it is when there are no post-processing "
+                                      "elements [%s]: a fill/compute element whose compute() returns a list (legal: every run element "
+                                      "iterates it) makes the sequence return a list, and SplitIntoBins.compute, which takes the "
+                                      "results of its cells with next(), raises TypeError where a private copy of the sequence "
+                                      "works; self._after.run(...) (an empty Sequence) is what turns it into an iterator"
+                                      % (got, p.describe(3)), construct="fc-seq-result-not-iterator", path=p)
+                        continue
             ctx.check("C05-f", got == want, rets[0], "%s returns `%s` on path [%s]; expected %s: the results of the accumulator must pass "
                       "through every post-processing element" % (qual, got, p.describe(3), want), detail="%s returns %s" % (qual, want),
                       construct="seq-result:%s:%s" % (qual, pkey(fn, p)), path=p)
@@ -947,6 +961,7 @@ def check(ctx):
 ADP = "lena/core/adapters.py"
 VARIANTS = [
     M("runfillinto-next-only", "lena/core/adapters.py", "        for result in self._el.run([value]):\n            element.fill(result)", "        results = iter(self._el.run([value]))\n        try:\n            result = next(results)\n        except StopIteration:\n            return\n        element.fill(result)", ["C05-b"]),
+    M("fc-seq-compute-skips-empty-after", "lena/core/fill_compute_seq.py", "        results = self._after.run(flow)\n", "        if self._after:\n            results = self._after.run(flow)\n        else:\n            results = flow\n", ["C05-f"]),
     M("call-run-returns-map", "lena/core/adapters.py", "        for val in flow:\n            yield self._el(val)\n", "        return map(self._el, flow)\n", ["C05-b"]),
     M("run-binds-generator-function", "lena/core/adapters.py", "            elif callable(el):\n                # Call to Run\n                self.run = self._call_run", "            elif callable(el):\n                if inspect.isgeneratorfunction(el):\n                    self.run = el\n                else:\n                    self.run = self._call_run", ["C05-a"]),
     M("fillcompute-stub-left", ADP, "        if callable(fill_method):\n            self.fill = fill_method\n        else:", "        if callable(fill_method):\n            pass\n        else:", ["C05-a"]),
